@@ -673,6 +673,7 @@ type c11Gen struct {
 	entries []c11Entry // entries handed out in this scenario (parsed from the implementation's lines)
 	revoked []c11Entry // successfully revoked
 	hosted  []string
+	pending []c11Op // follow-up operations (hostile sequences): run before anything else is chosen
 }
 
 var c11EntryRe = regexp.MustCompile(`n(\d+)/(\S+)/(\d+) (\d+) wf=`)
@@ -755,8 +756,19 @@ func (g *c11Gen) hostOp() c11Op {
 		"emptylist", "badlist", "status", "types3", "noctx", "subjtype"}
 	h := c11Host{URL: g.pick(c11Foreign), Kind: g.pick(kinds), Signer: g.pick([]string{"did:web:evil.example", "did:web:example.com:iam:alice"}),
 		ExpIn: []int{20, 920, 86420, 1820}[r.Intn(4)]}
-	for j := r.Intn(4); j > 0; j-- {
+	for j := 1 + r.Intn(3); j > 0; j-- {
 		h.Bits = append(h.Bits, r.Intn(6))
+	}
+	// hostile follow-up: a credential naming exactly this URL and one of the bits this host sets, verified on either node
+	// (a list that is mis-signed, names another list, has another purpose … must not revoke it), again after a refresh window
+	mk := func() c11Op {
+		c := c11Cred{ID: "did:web:example.com:iam:alice#h" + strconv.Itoa(r.Intn(3)), IssuerDID: "did:web:example.com:iam:alice",
+			Statuses: []c11Status{{Type: StatusList2021EntryType, Purpose: "revocation", List: c11URL{Node: -1, Raw: h.URL}, Idx: strconv.Itoa(h.Bits[r.Intn(len(h.Bits))])}}}
+		return c11Op{Op: "verify", Node: r.Intn(2), Cred: &c}
+	}
+	g.pending = append(g.pending, mk())
+	if r.Intn(2) == 0 {
+		g.pending = append(g.pending, c11Op{Op: "tick", Secs: 960}, mk())
 	}
 	if h.Kind == "short" {
 		h.LenBytes = 1 + r.Intn(2)
@@ -776,6 +788,19 @@ func (g *c11Gen) hostOp() c11Op {
 
 func (g *c11Gen) next() c11Op {
 	r := g.rng
+	if len(g.pending) > 0 {
+		op := g.pending[0]
+		g.pending = g.pending[1:]
+		if op.Op == "tick" {
+			// at most 14 ticks per scenario: every tick is k*900+60 s, so differences of virtual times stay ≥ 60 s away from
+			// the thresholds (multiples of 900 s) and the real time that passes during a scenario cannot flip a comparison
+			if g.nticks >= 14 {
+				return g.next()
+			}
+			g.nticks++
+		}
+		return op
+	}
 	node := 0
 	if r.Intn(5) == 0 {
 		node = 1
